@@ -3,8 +3,8 @@
 use dicom_core::ops::{AttributeAction, AttributeOp};
 use dicom_core::{PrimitiveValue, Tag};
 use dicom_encoding::adapters::{
-    DecodeResult, EncodeOptions, EncodeResult, PixelDataObject, PixelDataReader, PixelDataWriter,
-    decode_error, encode_error,
+    decode_error, encode_error, DecodeResult, EncodeOptions, EncodeResult, PixelDataObject,
+    PixelDataReader, PixelDataWriter,
 };
 use dicom_encoding::snafu::prelude::*;
 use jpeg_decoder::Decoder;
@@ -74,7 +74,11 @@ impl PixelDataReader for JpegAdapter {
                 .with_whatever_context(|_| format!("JPEG decoding failure on frame {i}"))?;
 
             let decoded_len = decoded.len();
-            dst[dst_offset..(dst_offset + decoded_len)].copy_from_slice(&decoded);
+            dst.get_mut(dst_offset..(dst_offset + decoded_len))
+                .whatever_context(
+                    "Decoded JPEG frame is larger than declared by the image attributes",
+                )?
+                .copy_from_slice(&decoded);
             dst_offset += decoded_len;
 
             if next_even(cursor.position()) >= next_even(fragments_len) {
@@ -225,7 +229,9 @@ impl PixelDataReader for JpegAdapter {
             .whatever_context("JPEG decoder failure")?;
 
         let decoded_len = decoded.len();
-        dst[dst_offset..(dst_offset + decoded_len)].copy_from_slice(&decoded);
+        dst.get_mut(dst_offset..(dst_offset + decoded_len))
+            .whatever_context("Decoded JPEG frame is larger than declared by the image attributes")?
+            .copy_from_slice(&decoded);
 
         Ok(())
     }
